@@ -371,7 +371,8 @@ func createUpstreamRequest(rw http.ResponseWriter, r *http.Request) (*http.Reque
 
 	// Remove hop-by-hop headers listed in the "Connection" header.
 	// See RFC 2616, section 14.10.
-	if c := outreq.Header.Get("Connection"); c != "" {
+	// (the field may be sent as several lines; each of them names fields)
+	for _, c := range r.Header["Connection"] {
 		for _, f := range strings.Split(c, ",") {
 			if f = strings.TrimSpace(f); f != "" {
 				if !copiedHeaders {
